@@ -9,7 +9,7 @@ FUNCTIONS = [
     "batchie.distance_calculation.ChunkedDistanceMatrix.__init__/add_value/is_complete/to_dense/save/load/combine/concat/_expand_storage",
     "batchie.distance_calculation.calculate_pairwise_distance_matrix_on_predictions",
     "batchie.distance.mse.MSEDistance.distance",
-    "batchie.cli.calculate_distance_matrix.main (argument parser stubbed)",
+    "batchie.cli.calculate_distance_matrix.main (through get_parser / get_args with sys.argv set; class lookup by name answered from the loaded modules)",
 ]
 BOUNDS = {
     "quick": "chunk arithmetic: all n>=0, n_chunks>=1, chunk_index (unbounded integers; islice/generator replaced by an exact abstract-sequence model); "
@@ -434,7 +434,7 @@ def h_cli(ctx, cfg):
     """the command-line step: per-chunk files written by calculate_distance_matrix assemble, in any order, to the
     matrix of MSE distances between the samples' viability predictions"""
     import argparse
-    from .common import cli_main, concrete_screen
+    from .common import cli_main, cli_argv, concrete_screen
     np = ctx.np
     dc = ctx.mod("batchie.distance_calculation")
     core = ctx.mod("batchie.core")
@@ -459,8 +459,8 @@ def h_cli(ctx, cfg):
     files = []
     for c in range(k):
         out = ctx.tmp("dist_%d.h5" % c)
-        cli_main(ctx, "batchie.cli.calculate_distance_matrix", data=sfn, thetas=[tfn], metric_cls=mse.MSEDistance, metric_params={},
-                 distance_metric="MSEDistance", n_chunks=k, chunk_index=c, output=out)
+        cli_argv(ctx, "batchie.cli.calculate_distance_matrix", ["--data", sfn, "--thetas", tfn, "--distance-metric", "MSEDistance",
+                                                                   "--n-chunks", k, "--chunk-index", c, "--output", out])
         files.append(out)
     rot = int(ctx.int("order0", 0, k - 1))
     seq = [(i + rot) % k for i in range(k)][::-1]
